@@ -76,6 +76,25 @@ fn parse_hist(s: &str) -> Option<(i64, BTreeMap<usize, i64>)> {
     count.map(|c| (c, buckets))
 }
 
+/// Clauses that stay exact when distinct keys share an index hash (non-zero, distinct conflict
+/// hashes): they identify the entry by its value id and depend neither on the policy's per-index
+/// charge nor on which of the colliding keys the policy believes it tracks.
+fn collision_sound(prop: &str, sig: &str) -> bool {
+    matches!(
+        (prop, sig),
+        ("C09", "veto/value-replaced")
+            | ("C09", "veto/if-present-returned-true")
+            | ("C09", "veto/vetoed-value-resident")
+            | ("C09", "veto/entry-changed")
+            | ("C09", "veto/expiry-index-changed")
+            | ("C09", "if-present/created-or-true-on-absent")
+            | ("C09", "if-present/true-on-absent-colliding-key")
+            | ("C09", "if-present/value-of-false-call-resident")
+            | ("C05", "cleanup/removed-unexpired")
+            | ("C05", "cleanup/not-reclaimed-in-bound")
+    )
+}
+
 pub fn check_trace(s: &Script, tr: &Trace, rep: &mut Report) -> Outcome {
     let mut out = Outcome { reclaimed: 0, evicted_for_room: 0, rejected: 0, clears: 0, ticks: 0, lookups: 0, updates: 0, vetoes: 0, out_of_domain: false };
     let kb = Kb { collide: s.cfg.collide, zero_even: s.cfg.collide_zero_even };
@@ -91,6 +110,9 @@ pub fn check_trace(s: &Script, tr: &Trace, rep: &mut Report) -> Outcome {
     // entries that had a vetoed write since they were written: their deadline must be unaffected
     let mut vetoed_ids: HashSet<u64> = HashSet::new();
     let mut cleared_ids: HashSet<u64> = HashSet::new();
+    // ids of values whose write was vetoed / of insert_if_present calls that returned false: never resident
+    let mut vetoed_write_ids: HashSet<u64> = HashSet::new();
+    let mut false_if_present_ids: HashSet<u64> = HashSet::new();
     // metric shadows since the last clear
     let (mut m_lookups, mut m_dropped_sets, mut m_pop_rejects, mut m_pushed_keys) = (0u64, 0u64, 0u64, 0u64);
     let mut tracked: HashMap<u64, u64> = HashMap::new(); // index -> admission instant (life expectancy)
@@ -126,7 +148,7 @@ pub fn check_trace(s: &Script, tr: &Trace, rep: &mut Report) -> Outcome {
         // un-charges the resident key: only the value-isolation clauses are decided there
         macro_rules! fail {
             ($prop:expr, $sig:expr, $($a:tt)*) => {
-                if !collide || matches!($prop, "C18" | "C02" | "C03") {
+                if !collide || matches!($prop, "C18" | "C02" | "C03") || collision_sound($prop, $sig) {
                     rep.violate($prop, $sig, format!($($a)*), wit!())
                 } else {
                     rep.count("ls_clauses_not_decided_under_index_collision");
@@ -135,7 +157,7 @@ pub fn check_trace(s: &Script, tr: &Trace, rep: &mut Report) -> Outcome {
         }
         macro_rules! also {
             ($prop:expr, $sig:expr, $msg:expr) => {
-                if !collide || matches!($prop, "C18" | "C02" | "C03") {
+                if !collide || matches!($prop, "C18" | "C02" | "C03") || collision_sound($prop, $sig) {
                     rep.violate($prop, $sig, $msg, wit!())
                 }
             };
@@ -152,6 +174,7 @@ pub fn check_trace(s: &Script, tr: &Trace, rep: &mut Report) -> Outcome {
 
         // ------------------------------------------------------------------ step semantics
         let mut new_admission: Option<(u64, Ent)> = None; // (index, entry) of a New item handled in this step
+        let mut vetoed_here: Option<u64> = None; // index of the entry whose replacement the validator vetoed in this step
         let mut step_is_update = false;
         if o.tick_at.is_none() {
             match step {
@@ -200,6 +223,8 @@ pub fn check_trace(s: &Script, tr: &Trace, rep: &mut Report) -> Outcome {
                                 out.vetoes += 1;
                                 step_is_update = true;
                                 vetoed_ids.insert(cur.id);
+                                vetoed_write_ids.insert(id);
+                                vetoed_here = Some(index);
                                 if only_update {
                                     if ret != Some(false) {
                                         fail!("C09", "veto/if-present-returned-true", "vetoed insert_if_present returned {ret:?}");
@@ -219,12 +244,15 @@ pub fn check_trace(s: &Script, tr: &Trace, rep: &mut Report) -> Outcome {
                                 }
                             }
                         }
-                        Some(_other) => {
+                        Some(other) => {
                             // another key owns this index (collision): it must not be disturbed
                             step_is_update = true;
                             if only_update {
                                 if ret != Some(false) {
                                     fail!("C18", "collision/if-present-true", "insert_if_present on a key whose index is owned by another key returned {ret:?}");
+                                    also!("C09", "if-present/true-on-absent-colliding-key", format!("insert_if_present(k{k}) on an absent key (its index hash is shared with resident key {}) returned {ret:?}", other.key));
+                                } else {
+                                    false_if_present_ids.insert(id);
                                 }
                                 silently_droppable.insert(id);
                             } else {
@@ -240,6 +268,8 @@ pub fn check_trace(s: &Script, tr: &Trace, rep: &mut Report) -> Outcome {
                             if only_update {
                                 if ret != Some(false) {
                                     fail!("C09", "if-present/created-or-true-on-absent", "insert_if_present on an absent key returned {ret:?}");
+                                } else {
+                                    false_if_present_ids.insert(id);
                                 }
                                 silently_droppable.insert(id);
                                 if o.events.iter().any(|e| matches!(e.kind, EvKind::Cb { .. })) {
@@ -312,7 +342,9 @@ pub fn check_trace(s: &Script, tr: &Trace, rep: &mut Report) -> Outcome {
                     for (id, _) in expect.drain() {
                         cleared_ids.insert(id);
                     }
-                    m_lookups = 0;
+                    // the look-up made the instant clear() returned opens the new counting period
+                    m_lookups = 1;
+                    ring_pending.push(kb.pair(crate::script::after_clear_key(s.universe)).0);
                     m_dropped_sets = 0;
                     m_pop_rejects = 0;
                     m_pushed_keys = 0;
@@ -479,9 +511,6 @@ pub fn check_trace(s: &Script, tr: &Trace, rep: &mut Report) -> Outcome {
                                     let is_expired = e.deadline().map_or(false, |dl| dl <= t);
                                     if o.tick_at.is_some() {
                                         // swept by the cleanup tick: only expired entries, never early
-                                        if !is_expired && vetoed_ids.contains(&e.id) {
-                                            also!("C09", "veto/expiry-index-changed", format!("key {key}: swept at the deadline of a vetoed write, not at its own ({:?})", e.deadline()));
-                                        }
                                         if !is_expired && e.d == 0 {
                                             also!("C03", "cleanup/no-ttl-entry-swept", format!("key {key} #{id:x} was inserted without TTL and has been swept by the tick at {t}: it became invisible because of time"));
                                         }
@@ -569,9 +598,6 @@ pub fn check_trace(s: &Script, tr: &Trace, rep: &mut Report) -> Outcome {
         if let Some(t) = o.tick_at {
             for e in slots.values() {
                 if let Some(dl) = e.deadline() {
-                    if dl + NS + interval <= t && vetoed_ids.contains(&e.id) {
-                        also!("C09", "veto/expiry-index-changed", format!("key {} #{:x}: a vetoed write changed when the entry is reclaimed: deadline {dl} unchanged, still resident at tick {t}", e.key, e.id));
-                    }
                     if dl + NS + interval <= t {
                         fail!("C05", "cleanup/not-reclaimed-in-bound", "key {} #{:x}: deadline {dl}, tick at {t} (interval {} ms): still resident after deadline + 1 s + interval", e.key, e.id, interval / 1_000_000);
                     }
@@ -596,6 +622,32 @@ pub fn check_trace(s: &Script, tr: &Trace, rep: &mut Report) -> Outcome {
                         fail!("C03", "store/deadline-not-replaced", "key {}: stored (ttl {} ns, created {}), model (ttl {} ns, inserted {})", e.key, se.ttl_ns, se.created_ns, e.d, e.t_ins);
                     }
                 }
+            }
+        }
+        // C09, exact: the step of a vetoed write leaves the entry (value, TTL) and its place in the
+        // expiry index exactly as the previous quiescent snapshot had them
+        if let (Some(index), true) = (vetoed_here, oi > 0) {
+            let before = &tr.obs[oi - 1].snap;
+            let ent = |sn: &stretto::verif::Snapshot| sn.store.iter().find(|e| e.index == index).map(|e| (e.tag, e.conflict, e.ttl_ns, e.created_ns));
+            let filed = |sn: &stretto::verif::Snapshot| {
+                let mut v: Vec<(i64, u64)> = sn.buckets.iter().flat_map(|(b, ks)| ks.iter().filter(|(k, _)| *k == index).map(move |(_, c)| (*b, *c))).collect();
+                v.sort();
+                v
+            };
+            rep.count("ls_veto_steps_compared_with_previous_snapshot");
+            if ent(before) != ent(&o.snap) {
+                also!("C09", "veto/entry-changed", format!("{}: the validator vetoed this write, yet the resident entry changed from {:x?} to {:x?} (value id, conflict, ttl ns, created ns)", step.short(), ent(before), ent(&o.snap)));
+            }
+            if filed(before) != filed(&o.snap) {
+                also!("C09", "veto/expiry-index-changed", format!("{}: the validator vetoed this write, yet the entry's place in the expiry buckets changed from {:?} to {:?} (bucket, conflict)", step.short(), filed(before), filed(&o.snap)));
+            }
+        }
+        for (_, se) in store.iter() {
+            if vetoed_write_ids.contains(&se.tag) {
+                also!("C09", "veto/vetoed-value-resident", format!("the store holds #{:x}, the value of a write the validator vetoed", se.tag));
+            }
+            if false_if_present_ids.contains(&se.tag) {
+                also!("C09", "if-present/value-of-false-call-resident", format!("the store holds #{:x}, the value of an insert_if_present call that returned false", se.tag));
             }
         }
         for (index, se) in store.iter() {
